@@ -15,7 +15,15 @@ Parts
       replaying its history on a fresh real object); oracle = refs/lbry_pow in the stored context;
   (b) checkpoint acceptance through fetch_chunk / get_raw_header with a chunk_getter;
   (c) crash / repair: every byte-offset cut of the header file and every 1-byte overwrite above the last
-      checkpoint, reopened with the real open().
+      checkpoint, reopened with the real open();
+  (d) session histories: open -> connect calls (incl. same-length and shorter forks) -> close -> restart, BFS
+      over 1-3 sessions on one header file; after every clean close the restart must load exactly what the
+      session held; byte cuts of the last session's file.
+
+The connect BFS also runs INSIDE and across the end of a checkpointed chunk (ckpt-inside, ckpt2-inside,
+ckpt-straddle) and on main-net parameters with the real first checkpoint entry installed (mainck): header
+validation must not depend on which configuration table happens to be populated.  Histories that start by
+storing the 1000-header chunk load that prefix from a file written once by the real class (root_file()).
 """
 import os
 import zlib
@@ -276,12 +284,15 @@ def new_headers(cfg, prefix_ops=()):
 ROOT_PREFIX_MIN = 500
 _ROOT_DIR = None
 _ROOT_FILES = {}
+_ROOT_FAILED = set()
 
 
 def root_file(cfg, n):
     """Path of a header file holding good[0:n], written by the real class (created on first use)."""
     global _ROOT_DIR
     key = (cfg.name, n)
+    if key in _ROOT_FAILED:
+        raise StoreFailed()
     if key not in _ROOT_FILES or not os.path.exists(_ROOT_FILES[key]):
         if _ROOT_DIR is None or not os.path.isdir(_ROOT_DIR):
             from vf.bootstrap import scratch_dir
@@ -296,6 +307,12 @@ def root_file(cfg, n):
         except Exception:   # noqa - the tree under test cannot store the good prefix; judged by the plain replay
             got = None
         if got != n:
+            _ROOT_FAILED.add(key)
+            if os.path.exists(path):
+                os.remove(path)
+            if not _ROOT_FILES:              # nothing else lives in the directory created above
+                shutil.rmtree(_ROOT_DIR, True)
+                _ROOT_DIR = None
             raise StoreFailed()
         _ROOT_FILES[key] = path
     return _ROOT_FILES[key]
@@ -1278,6 +1295,7 @@ def run(ctx):
     phases['sessions'] = round(time.time() - t0, 1)
     bounds['phase_finished_at_wall_s'] = phases
 
+    drop_root_files()
     res.sample({'connect_op_examples': [['good', 0, 3], ['fork', 2, 0, 2], ['alt', 3, 2, 1, 'timestamp'],
                                         ['rule', 4, 'wrong-bits-valid-pow'], ['ret', 5, 'rs']]})
     res.sample({'crash_image_examples': [['cut', 112000 + 37], ['ovw', 1036, 108, 1]]})
@@ -1300,7 +1318,11 @@ def run(ctx):
         exhaustive=True,
         bounds=bounds,
         bound_completed={'connect_depth': {f'{p[0]}_{p[1]}': p[2] for p in plan}},
-        assumptions=['reference = refs/lbry_pow (lbrycrd consensus rules), validated on the 20 real main-net headers and '
+        assumptions=['histories beginning with the 1000-header chunk: that prefix is stored once by open/connect/close and '
+                     'loaded by open() from the file in every replay (judged once in memory)',
+                     'a clean restart that brings back additional VALID headers an earlier session left in the file is '
+                     'tallied, not flagged (weaker reading of "prefix of what was stored")',
+                     'reference = refs/lbry_pow (lbrycrd consensus rules), validated on the 20 real main-net headers and '
                      'the lbrycrd / bitcoin unit-test vectors',
                      'easy difficulty (max_target 2^248-1) carries the exhaustive part; real difficulty appears as singles',
                      'proof of work is demanded against the un-rounded target (weaker reading); a hash between the rounded '
@@ -1342,4 +1364,5 @@ def replay(data):
     for v in res.violations.values():
         log += '\nVIOLATION: ' + v['what']
     drop_scratch()
+    drop_root_files()
     return bool(res.violations), log
